@@ -467,7 +467,7 @@ Definition elem_value (pos : nat) (e : selem) : option (list token) :=
   | Some T => Some (text_tokens (pos + length (se_name e) + length (parts_text (se_parts e)) + 1) T)
   end.
 Definition elem_leaf (pos : nat) (e : selem) : leaf :=
-  mkLeaf (Some [word_tok pos (se_name e)]) (elem_tattrs pos e) (elem_value pos e) None false.
+  mkLeaf (Some [word_tok pos (se_name e)]) (elem_tattrs pos e) (elem_value pos e) None (se_close e).
 
 (* `{ inner }` after the parts: text() takes the whole run *)
 Lemma text_tokens_plain' pos T : Forall not_expr_bracket (text_tokens pos T).
@@ -498,35 +498,68 @@ Qed.
 Definition set_value (s : est) (v : option (list token)) : est :=
   match v with None => s | Some _ => mkEst (e_name s) (e_attrs s) v (e_repeat s) (e_self s) end.
 
-Lemma elem_loop_tail jsx s pos t rest :
-  e_value s = None -> gboundary rest ->
-  elem_loop jsx 0 s (tail_toks pos t ++ rest) =
-    POk (set_value s (match t with None => None | Some T => Some (text_tokens (pos + 1) T) end), length (tail_toks pos t)).
+Lemma elem_loop_tail jsx s pos t R :
+  e_value s = None ->
+  elem_loop jsx 0 s (tail_toks pos t ++ R) =
+    shiftE (length (tail_toks pos t))
+           (elem_loop jsx 0 (set_value s (match t with None => None | Some T => Some (text_tokens (pos + 1) T) end)) R).
 Proof.
-  intros Hv Hb. destruct t as [T|]; cbn [tail_toks set_value app length].
+  intros Hv. destruct t as [T|]; cbn [tail_toks set_value app length].
   - cbn [elem_loop].
     rewrite (elem_body_text jsx s (tk1 (TBracket true BExpr) pos) (text_tokens (pos + 1) T)
-               (tk1 (TBracket false BExpr) (pos + 1 + length T)) rest eq_refl eq_refl (text_tokens_plain' _ _) Hv).
+               (tk1 (TBracket false BExpr) (pos + 1 + length T)) R eq_refl eq_refl (text_tokens_plain' _ _) Hv).
     cbn [pred].
     replace (length (text_tokens (pos + 1) T) + 1) with (length (text_tokens (pos + 1) T ++ [tk1 (TBracket false BExpr) (pos + 1 + length T)]))
       by (rewrite app_length; reflexivity).
-    rewrite elem_loop_skip. rewrite elem_loop_gboundary by exact Hb. cbn [shiftE]. rewrite Nat.add_0_r. reflexivity.
-  - apply elem_loop_gboundary. exact Hb.
+    rewrite elem_loop_skip.
+    destruct (elem_loop jsx 0 _ R) as [[s' c]|p]; reflexivity.
+  - destruct (elem_loop jsx 0 s R) as [[s' c]|p]; reflexivity.
 Qed.
 
-Lemma tail_toks_pstop pos t rest : gboundary rest -> pstop (tail_toks pos t ++ rest).
-Proof. destruct t; cbn [tail_toks app]; [intros _; reflexivity|apply gboundary_pstop]. Qed.
+(* the self-closing mark `/` ends the element *)
+Definition set_self (s : est) (b : bool) : est :=
+  if b then mkEst (e_name s) (e_attrs s) (e_value s) (e_repeat s) true else s.
+
+Lemma elem_loop_close jsx s pos b rest :
+  est_empty s = false -> e_repeat s = None -> gboundary rest ->
+  elem_loop jsx 0 s (close_toks pos b ++ rest) = POk (set_self s b, length (close_toks pos b)).
+Proof.
+  intros Hne Hrep Hb. destruct b; cbn [close_toks set_self app length]; [|apply elem_loop_gboundary; exact Hb].
+  cbn [elem_loop].
+  assert (E : elem_body jsx s (tk1 (TOperator OpClose) pos :: rest)
+              = EBreak (mkEst (e_name s) (e_attrs s) (e_value s) (e_repeat s) true) 1).
+  { apply elem_body_default; [reflexivity|]. cbv zeta.
+    rewrite text_zero by reflexivity.
+    rewrite (short_attribute_other jsx OpId) by reflexivity.
+    rewrite (short_attribute_other jsx OpClass) by reflexivity.
+    replace (attribute_set (tk1 (TOperator OpClose) pos :: rest)) with ASNone by reflexivity.
+    rewrite Hne. cbn [negb andb]. replace (is_operator (tk1 (TOperator OpClose) pos) (Some OpClose)) with true by reflexivity.
+    cbn [e_repeat]. rewrite Hrep.
+    destruct rest as [|t2 r2]; [destruct (e_value s); reflexivity|].
+    pose proof (gboundary_rep_none (t2 :: r2) Hb) as Hr. cbn in Hr. rewrite Hr.
+    destruct (e_value s); reflexivity. }
+  rewrite E. reflexivity.
+Qed.
+
+Lemma close_toks_pstop pos b rest : gboundary rest -> pstop (close_toks pos b ++ rest).
+Proof. destruct b; cbn [close_toks app]; [intros _; reflexivity|apply gboundary_pstop]. Qed.
+
+Lemma tail_toks_pstop pos t R : pstop R -> pstop (tail_toks pos t ++ R).
+Proof. destruct t; cbn [tail_toks app]; [intros _; reflexivity|auto]. Qed.
 
 Theorem elem_gblock jsx pos e :
   selem_ok e -> jsx_ok jsx e -> gblock_ok jsx (elem_toks pos e) (elem_leaf pos e).
 Proof.
   intros [Hn [Hp Ht]] Hj. split; [discriminate|]. split; [reflexivity|].
-  intros rest Hb. unfold elem_toks. cbn [app]. rewrite <- app_assoc.
+  intros rest Hb. unfold elem_toks. cbn [app]. rewrite <- !app_assoc.
   set (nt := word_tok pos (se_name e)).
   set (p1 := pos + length (se_name e)).
-  set (TL := tail_toks (p1 + length (parts_text (se_parts e))) (se_text e) ++ rest).
+  set (p2 := p1 + length (parts_text (se_parts e))).
+  set (CL := close_toks (p2 + length (tail_text (se_text e))) (se_close e) ++ rest).
+  set (TL := tail_toks p2 (se_text e) ++ CL).
   set (X := parts_toks p1 (se_parts e) ++ TL).
-  assert (HTL : pstop TL) by (apply tail_toks_pstop; exact Hb).
+  assert (HCL : pstop CL) by (apply close_toks_pstop; exact Hb).
+  assert (HTL : pstop TL) by (apply tail_toks_pstop; exact HCL).
   assert (HX : pstop X) by (apply parts_toks_pstop; exact HTL).
   assert (Hcap : jsx && is_capitalized_literal nt = false).
   { destruct Hj as [->|Hj]; [reflexivity|]. unfold is_capitalized_literal, nt, word_tok. cbn [tk].
@@ -540,12 +573,28 @@ Proof.
   destruct (add_parts_fields (se_parts e) (mkEst (Some [nt]) None None None false) p1)
     as [H1 [H2 [H3 [H4 H5]]]].
   cbn [e_name e_value e_repeat e_self e_attrs] in *.
-  unfold TL. rewrite elem_loop_tail by assumption. cbn [shiftE].
+  unfold TL. rewrite elem_loop_tail by assumption.
+  set (s1 := add_parts (mkEst (Some [nt]) None None None false) p1 (se_parts e)) in *.
+  set (s2 := set_value s1 (match se_text e with None => None | Some T => Some (text_tokens (p2 + 1) T) end)).
+  assert (Hs2 : e_name s2 = Some [nt] /\ e_repeat s2 = None /\ e_attrs s2 = e_attrs s1 /\ e_self s2 = false /\
+                e_value s2 = match se_text e with None => None | Some T => Some (text_tokens (p2 + 1) T) end).
+  { unfold s2. destruct (se_text e); cbn [set_value e_name e_repeat e_attrs e_self e_value]; auto. }
+  destruct Hs2 as [G1 [G2 [G3 [G4 G5]]]].
+  unfold CL. rewrite elem_loop_close; [| |exact G2|exact Hb].
+  2:{ unfold est_empty. rewrite G1. reflexivity. }
+  cbn [shiftE].
+  assert (Hemp : est_empty (set_self s2 (se_close e)) = false).
+  { unfold est_empty, set_self. destruct (se_close e); cbn [e_name]; rewrite G1; reflexivity. }
+  rewrite Hemp.
   unfold elem_leaf, elem_tattrs, elem_value, leaf_node. cbn [lf_name lf_attrs lf_value lf_repeat lf_self].
-  fold p1.
-  destruct (se_text e) as [T|]; cbn [set_value]; unfold est_empty; cbn [e_name e_value e_attrs e_repeat e_self];
-    rewrite ?H1, ?H2, ?H3, ?H4, H5; cbn [length]; rewrite !app_length;
-    (destruct (se_parts e) as [|p ps]; reflexivity).
+  fold p1. fold p2.
+  assert (Hf : e_name (set_self s2 (se_close e)) = Some [nt] /\ e_attrs (set_self s2 (se_close e)) = e_attrs s1 /\
+               e_value (set_self s2 (se_close e)) = e_value s2 /\ e_repeat (set_self s2 (se_close e)) = None /\
+               e_self (set_self s2 (se_close e)) = se_close e).
+  { unfold set_self. destruct (se_close e); cbn [e_name e_attrs e_value e_repeat e_self]; auto. }
+  destruct Hf as [F1 [F2 [F3 [F4 F5]]]]. rewrite F1, F2, F3, F4, F5, G5, H5.
+  cbn [length]. rewrite !app_length.
+  destruct (se_parts e) as [|p ps]; reflexivity.
 Qed.
 
 Lemma boundary_gboundary rest : boundary rest -> gboundary rest.
